@@ -345,7 +345,8 @@ def run_ode(starting_state: np.ndarray,
 
         # if we arrive here, things went wrong somehow.
         # this means that we should reduce the maximum runtime
-        if (cycle < 3) and (func_state.max_ok_t < func_state.min_error_t):
+        if (cycle < 3) and (
+                func_state.max_ok_t < func_state.min_error_t < inf):
             max_time = np.nextafter(min(func_state.min_error_t, (
                 0.8 * func_state.max_ok_t) + (0.2 * func_state.min_error_t)),
                 -inf)
